@@ -7,7 +7,10 @@ from concurrent.futures import (
 )
 from typing import Optional
 
-from executorlib.standalone.inputcheck import check_resource_dict
+from executorlib.standalone.inputcheck import (
+    check_cores_and_threads,
+    check_resource_dict,
+)
 from executorlib.standalone.queue import cancel_items_in_queue
 from executorlib.standalone.serialize import cloudpickle_register
 from executorlib.standalone.thread import RaisingThread
@@ -93,6 +96,7 @@ class ExecutorBase(FutureExecutor):
             # the executor-level number of cores is used for this call
             cores = self._default_cores
         threads_per_core = resource_dict.get("threads_per_core", 1)
+        check_cores_and_threads(cores=cores, threads_per_core=threads_per_core)
         if (
             self._max_cores is not None
             and cores * threads_per_core > self._max_cores
